@@ -15,6 +15,7 @@ package parexec
 
 import (
 	"bufio"
+	"flag"
 	"encoding/json"
 	"fmt"
 	"os"
@@ -33,7 +34,9 @@ type seqRef struct {
 	Reads  [][]int        `json:"reads"`  // [t][i]: value seen / written by operation i of transaction t
 	Final  map[string]int `json:"final"`  // final account values
 	Result string         `json:"result"` // "ok" | "err"
+	PResult string        `json:"presult"` // outcome in the concurrent executor (a failing Prepare only exists there)
 	First  int            `json:"first"`  // first failing transaction (K+1: none)
+	Init   map[string]int `json:"init"`   // account values before the block
 }
 
 type step struct {
@@ -86,7 +89,7 @@ func progsOf(in input) []prog {
 		}
 	}
 	for _, s := range in.Steps {
-		if s.Op == "top" {
+		if s.Op == "top" || s.Op == "toprefuse" {
 			ps[s.T-1] = s.Prog
 		}
 	}
@@ -95,7 +98,7 @@ func progsOf(in input) []prog {
 
 func anyFails(ps []prog) (int, bool) {
 	for i, p := range ps {
-		if p.Fate == "fatal" || p.Fate == "retryx" {
+		if p.Fate == "fatal" || p.Fate == "retryx" || p.Fate == "nohandler" || p.Fate == "retryh" {
 			return i + 1, true
 		}
 	}
@@ -104,7 +107,7 @@ func anyFails(ps []prog) (int, bool) {
 
 // runScheduled realises the schedule of the behaviour on the concurrent executor.
 func runScheduled(e *env, in input, height int64, f *finding) (*blockRun, string) {
-	r := &blockRun{s: newSched(false), progs: progsOf(in), accounts: makeAccounts(in.Acc, in.Salt),
+	r := &blockRun{s: newSched(false), progs: progsOf(in), accounts: makeAccounts(in.Acc, in.Salt), init: initOf(in),
 		pltFail: in.Plt != nil && *in.Plt, rerun: in.Rerun != nil && *in.Rerun}
 	if err := e.start(r, in.Level, height, in.Salt); err != nil {
 		f.set(false, "", "cannot start the transition: "+err.Error())
@@ -134,7 +137,7 @@ func runScheduled(e *env, in input, height int64, f *finding) (*blockRun, string
 	}
 	for i, st := range in.Steps {
 		switch st.Op {
-		case "top", "topfail":
+		case "top", "topfail", "toprefuse":
 			key := fmt.Sprintf("has:%d", st.T)
 			if !s.waitArrived(key, stepTimeout) {
 				return r, desync(i, fmt.Sprintf("dispatcher did not reach the loop top of tx %d", st.T))
@@ -157,6 +160,12 @@ func runScheduled(e *env, in input, height int64, f *finding) (*blockRun, string
 			}
 			if st.Op == "top" && !s.hasNote(prep) {
 				return r, desync(i, fmt.Sprintf("dispatcher returned before tx %d although no error is latched in the model", st.T))
+			}
+			if st.Op == "toprefuse" {
+				if s.hasNote(prep) {
+					return r, desync(i, fmt.Sprintf("tx %d was prepared although its GetHandler / Prepare has to fail", st.T))
+				}
+				return r, "err"
 			}
 			if st.Op == "topfail" {
 				if s.hasNote(prep) {
@@ -354,6 +363,13 @@ func afterCancel(s *sched) string {
 	return "cancelled"
 }
 
+func initOf(in input) map[string]int {
+	if n := len(in.Steps); n > 0 && in.Steps[n-1].Seq != nil {
+		return in.Steps[n-1].Seq.Init
+	}
+	return nil
+}
+
 func contains(xs []int, x int) bool {
 	for _, y := range xs {
 		if y == x {
@@ -378,7 +394,7 @@ func nextOp(rest []step, t int) int {
 // runFree executes the block without gates at the given level (1 = the sequential executor); with jitter
 // every gate is followed by a seeded random delay so that the goroutines interleave differently each time.
 func runFree(e *env, in input, level int, height int64, f *finding, jitter *rand.Rand) (*blockRun, string) {
-	r := &blockRun{s: newSched(true), progs: progsOf(in), accounts: makeAccounts(in.Acc, in.Salt),
+	r := &blockRun{s: newSched(true), progs: progsOf(in), accounts: makeAccounts(in.Acc, in.Salt), init: initOf(in),
 		pltFail: in.Plt != nil && *in.Plt, rerun: in.Rerun != nil && *in.Rerun, cancelAt: cancelPoint(in)}
 	if jitter != nil {
 		var jmu sync.Mutex
@@ -458,7 +474,11 @@ func traceOf(r *blockRun, k int, res string) map[string]interface{} {
 		ev[th] = append(ev[th], c)
 	}
 	ev[k] = append(ev[k], map[string]interface{}{"op": "result", "out": res, "t": 0})
-	return map[string]interface{}{"progs": r.progs, "ev": ev}
+	init := map[string]int{}
+	for a := range r.accounts {
+		init[a] = r.init[a]
+	}
+	return map[string]interface{}{"progs": r.progs, "ev": ev, "init": init}
 }
 
 func runCase(e *env, in input, caseNo int, out *tlaio.Out, id string, detail interface{}) (finding, interface{}) {
@@ -479,7 +499,18 @@ func runCase(e *env, in input, caseNo int, out *tlaio.Out, id string, detail int
 		f.set(false, "", "driver and specification disagree about the failing transaction")
 		return f, nil
 	}
-	h := int64(caseNo*4 + 1)
+	// the concurrent executor additionally fails on a failing Prepare (the sequential executor never calls it)
+	wantPar, failingPar := want, failing
+	for i, p := range ps {
+		if p.Fate == "noprep" && (failingPar == 0 || i+1 < failingPar) {
+			wantPar, failingPar = "err", i+1
+		}
+	}
+	if seq.PResult != "" && seq.PResult != wantPar {
+		f.set(false, "", "driver and specification disagree about the outcome of the concurrent executor")
+		return f, nil
+	}
+	h := int64(caseNo*8 + 1) // every run uses two heights: an optional set-up block and the block itself
 	// (1) the sequential executor (ConcurrencyLevel 1)
 	key := func(k string) string {
 		if fails {
@@ -510,18 +541,18 @@ func runCase(e *env, in input, caseNo int, out *tlaio.Out, id string, detail int
 	// (2) the TLC-chosen schedule on the concurrent executor
 	out.Emit(tlaio.Record{Case: id, Status: "begin", Key: key("parexec:fatal-error-not-latched"), Detail: detail,
 		What: fmt.Sprintf("concurrent executor (ConcurrencyLevel %d), %s", in.Level, desc)})
-	pr, pres := runScheduled(e, in, h+1, &f)
+	pr, pres := runScheduled(e, in, h+2, &f)
 	if pres != "" {
-		hash := judge(e, "parexec", in.Level, pr, pres, want, failing, seq, in, &f)
+		hash := judge(e, "parexec", in.Level, pr, pres, wantPar, failingPar, seq, in, &f)
 		if pres == "ok" && sres == "ok" && string(hash) != string(seqHash) {
 			f.set(true, "parexec:state-hash-differs", fmt.Sprintf("state hash after concurrent execution (level %d) differs from the sequential executor's", in.Level))
 		}
 	}
 	pr.s.setFree() // goroutines that outlive a failed block must not stay parked at a gate
 	// (3) a free-running execution with seeded random delays, recorded for Trace_ParallelExec
-	fr, fres := runFree(e, in, in.Level, h+2, &f, rand.New(rand.NewSource(in.Salt+int64(caseNo))))
+	fr, fres := runFree(e, in, in.Level, h+4, &f, rand.New(rand.NewSource(in.Salt+int64(caseNo))))
 	if fres != "" {
-		hash := judge(e, "parexec", in.Level, fr, fres, want, failing, seq, in, &f)
+		hash := judge(e, "parexec", in.Level, fr, fres, wantPar, failingPar, seq, in, &f)
 		if fres == "ok" && sres == "ok" && string(hash) != string(seqHash) {
 			f.set(true, "parexec:state-hash-differs", fmt.Sprintf("state hash after free-running concurrent execution (level %d) differs from the sequential executor's", in.Level))
 		}
@@ -588,7 +619,7 @@ func sig(in input) string {
 	for _, s := range in.Steps {
 		fmt.Fprintf(&b, "%s%d.%d", s.Op[:2], s.T, s.I)
 		if s.Op == "top" {
-			fmt.Fprintf(&b, "%v%v%v%v%s", s.Prog.World, s.Prog.Ens, s.Prog.Lock, s.Prog.Ops, s.Prog.Fate)
+			fmt.Fprintf(&b, "%v%v%v%v%v%s", s.Prog.World, s.Prog.Ens, s.Prog.Twice, s.Prog.Lock, s.Prog.Ops, s.Prog.Fate)
 		}
 		b.WriteByte(';')
 	}
@@ -650,7 +681,12 @@ func TestReplay(t *testing.T) {
 	from := 0
 	crashes := 0
 	for {
-		cmd := exec.Command(os.Args[0], "-test.run", "^TestChild$", "-test.count=1", "-test.timeout", "3000s")
+		args := []string{"-test.run", "^TestChild$", "-test.count=1", "-test.timeout", "3000s"}
+		if fl := flag.Lookup("test.coverprofile"); fl != nil && fl.Value.String() != "" {
+			// coverage diagnostic: the children execute the code under test, each writes its own profile
+			args = append(args, "-test.coverprofile", strings.TrimSuffix(fl.Value.String(), ".cover")+fmt.Sprintf(".child%d.cover", from))
+		}
+		cmd := exec.Command(os.Args[0], args...)
 		cmd.Env = append(os.Environ(), fmt.Sprintf("VERIF_CHILD_FROM=%d", from))
 		stdout, err := cmd.StdoutPipe()
 		if err != nil {
